@@ -3,7 +3,6 @@ package sim
 import (
 	crand "crypto/rand"
 	"io"
-	"sync"
 
 	"github.com/google/uuid"
 )
@@ -11,12 +10,13 @@ import (
 // seededReader is the deterministic stand-in for the system CSPRNG.  It also counts the bytes
 // drawn, which is how C04 checks that session ids really come from crypto/rand.
 type seededReader struct {
-	mu    sync.Mutex
+	mu    quietMutex
 	x     uint64
 	Drawn int64
 	Log   [][]byte
 }
 
+//go:norace
 func (r *seededReader) Read(p []byte) (int, error) {
 	r.mu.Lock()
 	defer r.mu.Unlock()
@@ -47,6 +47,7 @@ func seedRandom(t *Tape) {
 
 // RandDrawn returns how many bytes were drawn from the (simulated) system CSPRNG so far and the
 // draws themselves.
+//go:norace
 func RandDrawn() (int64, [][]byte) {
 	r := CurrentRand
 	r.mu.Lock()
